@@ -188,3 +188,78 @@ Proof.
     + inversion Hp; subst. apply sorted_goheap; auto; [exact le_coord_trans | exact less_by_coordinate_compat].
     + apply sorted_goheap; auto; [apply le_custom_trans | now apply custom_less_compat].
 Qed.
+
+(** * NewMerger as a whole (header handling, choice of the mode) *)
+Lemma new_merger_full_spec : forall pq code ins h links lessf m,
+    new_merger_full pq code ins = Ok (h, links, lessf, m) ->
+    exists first rest,
+      ins = first :: rest /\
+      so_agree (i_so first) ins = true /\
+      mh_so h = i_so first /\
+      lessf = pick_less (i_so first) code /\
+      new_merger pq links lessf ins = Ok m /\
+      match rest with
+      | [] => links = None /\ mh_refs h = i_refs first /\ mh_go h = i_go first
+      | _ => mh_go h = 0 /\ exists ls, links = Some ls
+      end.
+Proof.
+  intros pq code ins h links lessf m H. unfold new_merger_full in H.
+  destruct ins as [| first rest]; [discriminate |].
+  destruct (so_agree (i_so first) (first :: rest)) eqn:Eso; cbn [negb] in H; [| discriminate].
+  destruct (merge_headers (first :: rest)) as [[h0 l0] |] eqn:Em; [| discriminate].
+  cbn [mh_so mh_refs mh_go] in H.
+  destruct (new_merger pq l0 (pick_less (i_so first) code) (first :: rest)) as [m0 | | |] eqn:En;
+    cbn [obind] in H; try discriminate.
+  inversion H; subst h links lessf m. clear H.
+  exists first, rest. repeat split; auto.
+  unfold merge_headers in Em. destruct rest as [| second more].
+  - inversion Em; subst. simpl. auto.
+  - destruct (merge_more (i_refs first) (second :: more)) as [[hh lss] |]; [| discriminate].
+    inversion Em; subst. simpl. split; [reflexivity | eauto].
+Qed.
+
+(** the four declared orders: unsorted = concatenation; queryname and
+    coordinate = the two sam.Record methods; unknown (and any other value) =
+    the caller's less, concatenation when it is nil *)
+Lemma pick_less_modes : forall so code,
+    (so = 1 -> pick_less so code = None) /\
+    (so = 2 -> pick_less so code = Some less_by_name) /\
+    (so = 3 -> pick_less so code = Some less_by_coordinate) /\
+    (so <> 1 -> so <> 2 -> so <> 3 -> pick_less so code = custom_less code).
+Proof.
+  intros so code. unfold pick_less. repeat split; intros; subst; try reflexivity.
+  destruct (so =? 1) eqn:E1; [apply Z.eqb_eq in E1; contradiction |].
+  destruct (so =? 2) eqn:E2; [apply Z.eqb_eq in E2; contradiction |].
+  destruct (so =? 3) eqn:E3; [apply Z.eqb_eq in E3; contradiction | reflexivity].
+Qed.
+
+Definition declared_le (so code : Z) : rec -> rec -> Prop :=
+  if so =? 2 then le_name else if so =? 3 then le_coord else le_custom code.
+
+Lemma full_merge : forall code ins h links lessf m,
+    new_merger_full goheap code ins = Ok (h, links, lessf, m) ->
+    ins_ok links 0 ins ->
+    exists outs e mf,
+      drain goheap links lessf (S (total_recs ins)) m = (outs, e, mf) /\
+      merge_result links ins outs e /\
+      so_agree (mh_so h) ins = true /\
+      lessf = pick_less (mh_so h) code /\
+      (lessf = None -> exists rest, tagged links 0 ins = outs ++ rest) /\
+      (lessf <> None -> ins_sorted links (declared_le (mh_so h) code) 0 ins ->
+       StronglySorted (declared_le (mh_so h) code) (map snd outs)).
+Proof.
+  intros code ins h links lessf m H Hok.
+  destruct (new_merger_full_spec _ _ _ _ _ _ _ H) as [first [rest [Hins [Hso [Hh [Hl [Hn _]]]]]]].
+  destruct (goheap_run links lessf ins Hok) as [outs [e [mf [H1 [H2 _]]]]].
+  assert (Hd : drain goheap links lessf (S (total_recs ins)) m = (outs, e, mf)).
+  { unfold run_merge in H1. rewrite Hn in H1. simpl in H1. now inversion H1. }
+  exists outs, e, mf. split; [exact Hd |]. split; [exact H2 |].
+  rewrite Hh. split; [exact Hso |]. split; [exact Hl |]. split.
+  - intros HN. subst lessf. rewrite HN in *.
+    destruct (cat_gen links ins Hok) as [o2 [e2 [m2 [rest2 [R1 [R2 _]]]]]].
+    rewrite H1 in R1. inversion R1; subst. eauto.
+  - intros HS Hsorted. destruct lessf as [less |]; [| contradiction].
+    destruct (sorted_declared links (i_so first) code less ins (eq_sym Hl) Hok Hsorted)
+      as [o2 [e2 [m2 [R1 [R2 _]]]]].
+    rewrite H1 in R1. inversion R1; subst. exact R2.
+Qed.
